@@ -194,6 +194,7 @@ class DeclTable {
         os << ",\"recqn\":" << Q(qname(M->getParent()));
         os << ",\"access\":\"" << accessStr(M->getAccess()) << "\"";
         os << ",\"const\":" << B(M->isConst());
+        os << ",\"refq\":" << (int)M->getRefQualifier();   // 0 none, 1 &, 2 &&
         os << ",\"static\":" << B(M->isStatic());
         os << ",\"virtual\":" << B(M->isVirtual());
         os << ",\"copyassign\":" << B(M->isCopyAssignmentOperator());
@@ -288,6 +289,12 @@ class DeclTable {
       os << ",\"tls\":" << (int)VD->getTLSKind();
       if (auto *DC = dyn_cast_or_null<FunctionDecl>(VD->getParentFunctionOrMethod()))
         os << ",\"infn\":" << X.id(DC);
+      // compile-time integer constants (static constexpr size_t BLOCK = 16;): usable also where the reference is an lvalue
+      if (!T->isDependentType() && T.isConstQualified() && T->isIntegralOrEnumerationType() && VD->hasInit() &&
+          !VD->getInit()->isValueDependent()) {
+        if (const APValue *V = VD->evaluateValue())
+          if (V->isInt()) os << ",\"ival\":" << Q(toString(V->getInt(), 10));
+      }
       os << "}";
       rows[me] = os.str();
       return;
